@@ -18,7 +18,7 @@ from .. import env, scen, simdev, tlc, transports, wire
 from ..framework import main
 
 TICK = 0.01
-OPS = ['connect', 'connect_auth', 'shell', 'streaming_shell', 'exec_out', 'stat', 'list', 'pull', 'pull_cb', 'push', 'push_dir', 'reboot', 'root']
+OPS = ['connect', 'connect_auth', 'shell', 'streaming_shell', 'exec_out', 'stat', 'list', 'pull', 'pull_cb', 'push', 'push_dir', 'push_rejected', 'reboot', 'root']
 _DIR = {}
 
 
@@ -97,6 +97,10 @@ def run_case(mode, op, j, kind, tt, rt, total, seed, healthy=None, net='mem'):
     dev.shell_scripts[b'exec:x'] = [b'a1', b'b2']
     dev.fs.add('/f', scen.fast_pattern(1, 9000))
     dev.fs.dirs['/d'] = [(b'n1', 1, 2, 3), (b'n2', 4, 5, 6)]
+    if op == 'push_rejected':
+        # the device rejects the file right after SEND (its FAIL is on its way) and then stops acknowledging: a push of many WRITEs
+        dev.service_for = lambda dest, d: (simdev.SyncService(d, plan=simdev.SyncFailPlan('SEND', reason=b'read-only')) if dest.rstrip(b'\0') == b'sync:' else None)
+        dev.eager = True          # the FAIL goes on the wire as soon as the device has produced it (right behind the OKAY of the first WRITE)
     if op == 'connect_auth':
         dev.auth = simdev.AuthPolicy(mode='auth', maxdata=4096, accept_sig=lambda i, s, t: False, pubkey='accept')
     sess = env.Session(mode, dev, tick=TICK, default_transport_timeout_s=None, net=net)
@@ -152,6 +156,12 @@ def run_case(mode, op, j, kind, tt, rt, total, seed, healthy=None, net='mem'):
             o = sess.call('push', push_dir_source(), '/qd', mtime=3, **kw)
             if o.kind == 'ret':
                 o.value = sorted((k_, len(v_['data'])) for k_, v_ in dev.fs.files.items() if k_.startswith('/qd'))
+        elif op == 'push_rejected':
+            o = sess.call('push', io.BytesIO(scen.fast_pattern(2, 60000)), '/q', mtime=3, **kw)
+            if healthy is None and o.kind == 'exc' and o.exc_name == 'PushFailedError':
+                o = env.Outcome('ret', value='rejected')          # the fault-free run of this operation ends with the device's FAIL
+            elif o.kind == 'exc' and o.exc_name == 'PushFailedError':
+                o = env.Outcome('ret', value='rejected')
         elif op == 'push':
             o = sess.call('push', io.BytesIO(scen.fast_pattern(2, 9000)), '/q', mtime=3, **kw)
             if o.kind == 'ret':
@@ -229,6 +239,9 @@ def body(ctx):
                 if ctx.quick:
                     rng.shuffle(extra)
                     extra = extra[:2]
+                if op == 'push_rejected':
+                    # the device stops acknowledging after its FAIL is on the wire: end-of-stream reads / foreign traffic, real timeouts
+                    extra += [(kd, tt_, rt_, None) for kd in ('empty', 'foreign') for tt_ in (None, 0.5) for rt_ in (1, 3)]
                 combos += extra
                 for (kind, tt, rt, total) in combos:
                     ev, _, _ = run_case(mode, op, j, kind, tt, rt, total, ctx.seed, healthy=val)
